@@ -52,6 +52,19 @@ func New(prog *ssa.Program, sizes types.Sizes, stubs map[string]*ssa.Function, r
 	}
 	e := &Engine{i: i}
 	initReflectModel(i)
+	// error-typed globals of packages known only from export data (context.Canceled, io.EOF,
+	// os.ErrNotExist ...) get distinct sentinel values, since their initialisers are not run
+	errT := types.Universe.Lookup("error").Type()
+	for _, pkg := range prog.AllPackages() {
+		if f := pkg.Func("init"); f != nil && f.Blocks != nil {
+			continue
+		}
+		for name, m := range pkg.Members {
+			if g, ok := m.(*ssa.Global); ok && types.Identical(mustDeref(g.Type()), errT) {
+				*i.globals[g] = newEngineErr(pkg.Pkg.Path()+"."+name, nil)
+			}
+		}
+	}
 	for _, pkg := range roots {
 		func() {
 			defer func() {
